@@ -35,9 +35,9 @@ func vSPILen(tier int) int {
 	case 0:
 		return vr.IntOf(0, 4)
 	case 1:
-		return vr.IntOf(0, 4, 8)
+		return vr.IntOf(0, 4, 255)
 	}
-	return vr.IntOf(0, 1, 4, 8, 255)
+	return vr.IntOf(0, 1, 4, 8, 247, 248, 255)
 }
 
 // VGenTransform builds a transform of the given type; form 0 = no attribute, 1 = TV, 2.. = TLV with
@@ -282,6 +282,8 @@ func VGenHeader() *IKEHeader {
 		InitiatorSPI: vr.U64(), ResponderSPI: vr.U64(),
 		MajorVersion: vr.U8() & 0x0f, MinorVersion: vr.U8() & 0x0f,
 		ExchangeType: vr.U8(), Flags: vr.U8(), MessageID: vr.U32(),
+		// bookkeeping left over from an earlier use of the header (Encode must overwrite it)
+		NextPayload: vr.U8(),
 	}
 }
 
